@@ -735,8 +735,8 @@ ITEMS = [b"", b"a", b"bc"]
 
 def tier_params(tier):
     if tier == "thorough":
-        return dict(nmax=7, wdepth=3, bmax=5, items=4, trunc_graph_nmax=6)
-    return dict(nmax=5, wdepth=2, bmax=4, items=3, trunc_graph_nmax=4)
+        return dict(nmax=8, wdepth=3, bmax=6, items=5)
+    return dict(nmax=6, wdepth=2, bmax=4, items=3)
 
 
 def units(tier):
@@ -1062,7 +1062,7 @@ LEVEL_TEXT = (
 )
 LEVEL_NOTE = (
     "Trusted: the strict reference de-chunker, the harness request builder / response parser, BytesIO standing in "
-    "for the buffered socket file in space A (space B uses the real one). Bodies <= 7 bytes; no TLS / keep-alive / "
+    "for the buffered socket file in space A (space B uses the real one). Bodies <= 8 bytes; no TLS / keep-alive / "
     "reloader; chunk extensions, blank-padded size lines and truncation after the last-chunk line accept either outcome."
 )
 TECHNIQUE = "explicit-state read-schedule graphs of the de-chunker + exhaustive request/response product over a socket pair"
